@@ -145,6 +145,9 @@ class Suite:
         sk = self.skf
         tr = f'esk.{sk["tr"]}'; rho = f'esk.{sk["rho"]}'; kk = f'esk.{sk["cap_k"]}'
         kl = f.debug_of.get('kappa_ctr')
+        if kl is None:      # renamed: the ExpandMask counter is the only user variable of type u16 in Sign_internal
+            cands = [l for l, t in f.locals.items() if t == 'u16' and l in f.debug]
+            kl = cands[0] if len(cands) == 1 else None
         classes = set()
         for p in [x for x in pre if x.stop == head]:
             cls, mu = self.mu_args(E, p, tr, 'message')
@@ -425,12 +428,15 @@ class Suite:
         if not inner or inner not in self.funcs:
             self.refused(title, tags, f'closure body not found for {rec["args"]}'); return
         try:
-            self._closure_lemma(title, tags, inner, kind)
+            self._closure_lemma(title, tags, inner, kind, caps=rec.get('caps'))
         except e2.Refuse as e:
             self.refused(title, tags, f'{inner}: {e}')
 
-    def _closure_lemma(self, title, tags, inner, kind):
+    def _closure_lemma(self, title, tags, inner, kind, caps=None):
         sess = self.sess
+        def byrole(ins):     # captured variables by role (the name the FIPS pattern uses), not by source identifier
+            mapped = {act for act in (caps or {}).values()}
+            return {**{k: v for k, v in ins.items() if k not in mapped}, **{role: ins[act] for role, act in (caps or {}).items() if act in ins}}
         self.run.functions.append('MIR ' + inner)
         G = (S.G44, S.G65)
         def bvrun(g2=None):
@@ -445,6 +451,7 @@ class Suite:
                     continue
                 m = re.match(r'^(\w+)[\.\[]', k)
                 ins[m.group(1) if m else k] = v.t
+            ins = byrole(ins)
             if g2 is not None and 'gamma2' in ins:
                 pre.append(ins['gamma2'] == g2)
             return E, out, obl, pre, ins
@@ -460,7 +467,7 @@ class Suite:
                     continue
                 m = re.match(r'^(\w+)[\.\[]', k)
                 ins[m.group(1) if m else k] = v.t
-            return E, out, obl, pre + list(E.summary_facts), ins
+            return E, out, obl, pre + list(E.summary_facts), byrole(ins)
         def rec(ok):
             self.ob(title + f' [{inner}]', tags, ok, kind)
         nm = f'{title} [{inner}]'
@@ -477,6 +484,7 @@ class Suite:
                 m = re.match(r'^(\w+)[\.\[]', k)
                 ins[m.group(1) if m else k] = v.t
             pre = [z3.ULT(n.t, 256)] + [v.t == 0 for k, v in E.inputs.items() if isinstance(v, e2.Val) and not isinstance(v, (e2.Ref, e2.Opaque)) and v.ty == 'usize' and not k.startswith('param:')]
+            ins = byrole(ins)
             w = ins['w']; c = ins['c_s_2']; t = ins['c_t_0']
             p = z3.And(*pre, w >= 0, w < Q, c >= 0, c < Q, t >= 0, t < Q)
             recs = list(E.call_records.values())
